@@ -71,7 +71,7 @@ def plan_for(pid, tier):
     common = dict(tags=("verif",), life_cfg="LifeQ.cfg" if q else "Life.cfg", walks=250 if q else 6000,
                   life_timeout=120 if q else 1500)
     P = {
-        "C01": [("rich", 16 if q else 150, 5), ("mergey", 6 if q else 40, 4), ("lean", 2 if q else 8, 2)],
+        "C01": [("rich", 16 if q else 150, 5), ("mergey", 6 if q else 40, 4), ("lean", 2 if q else 8, 2), ("leanmulti", 1 if q else 3, 0)],
         "C02": [("stored", 16 if q else 150, 5), ("mergey", 6 if q else 40, 4), ("lean", 1 if q else 4, 2)],
         "C03": [("rich", 20 if q else 200, 6), ("mergey", 10 if q else 100, 6), ("lean", 2 if q else 10, 3)],
         "C04": [("rich", 12 if q else 100, 6), ("stored", 6 if q else 50, 5), ("mergey", 8 if q else 50, 6), ("lean", 1 if q else 4, 3), ("sweep", 1 if q else 3, 0)],
@@ -307,6 +307,26 @@ def trace_stats(trace):
 
 
 def run_life_check(pid, tier, seed, replay=None, pre=None):
+    """A violation confirmed by a component stage stands whatever happens afterwards: if the lifecycle stage then
+    fails or runs out of time (a library that went wrong can make it very slow), the check still reports it."""
+    state = {}
+    t0 = time.time()
+    try:
+        return _run_life_check(pid, tier, seed, replay, pre, state)
+    except Exception as e:
+        p = state.get("pre")
+        if not (p and p.get("paths")):
+            raise
+        log("note: the lifecycle stage did not complete (%s); reporting the violations of the component stage" % str(e)[:200])
+        cov = dict(p["cov"])
+        cov["lifecycle_stage"] = "not completed: " + str(e)[:300]
+        write_evidence(pid, tier, seed, cov, ASSUMPTIONS, time.time() - t0, len(p["paths"]))
+        for path in p["paths"]:
+            log("VIOLATION property=%s replay=%s" % (pid, path))
+        return 1
+
+
+def _run_life_check(pid, tier, seed, replay, pre, state):
     t0 = time.time()
     plan = plan_for(pid, tier)
     known = load_known()
@@ -321,6 +341,7 @@ def run_life_check(pid, tier, seed, replay=None, pre=None):
             return do_replay(pid, zx, sc, replay, known, plan)
         if pre is None and plan.get("pre"):
             pre = plan["pre"](zx, sc, tier, seed, known)
+        state["pre"] = pre
         # G
         module = plan.get("life_module", "Life")
         outp, lst = tlc(sc, module, cfg=plan["life_cfg"], workers=8, timeout=plan["life_timeout"], outname="life.out")
